@@ -1,0 +1,36 @@
+//go:build verif
+
+// Machine-checked contracts for package binpatch (comment-only; see /verif/DESIGN.md).
+
+package binpatch
+
+//@ func (*PatchSet).Apply
+//@   property C13
+//@   ghost canOW bool = false
+//@   ghost statInfo os.FileInfo = nil
+//@   ghost lstatInfo os.FileInfo = nil
+//@   ghost lstatOnOutput bool = false
+//@   ghost rewritten bool = false
+//@   on call (*os.File).Stat(f) ret (i, e): statInfo = i
+//@   on call os.Lstat(p) ret (i, e): lstatInfo = i; lstatOnOutput = (p == outpath && e == nil)
+//@   on call canOverwrite(a, b) ret (r): canOW = r && a == statInfo && b == lstatInfo && lstatOnOutput
+//@   on call (*PatchSet).applyRewrite(_, _, _) ret (e): rewritten = true
+//@   before call (*os.File).WriteAt(f, _, _): assert @in_place_only_when_provably_safe canOW && f == infile && !rewritten
+//@   before call (*os.File).Truncate(f, _): assert @truncate_only_when_provably_safe canOW && f == infile && !rewritten
+//@
+//@ func (*PatchSet).applyRewrite
+//@   property C13
+//@   ghost open bool = false
+//@   ghost committed bool = false
+//@   ghost failed bool = false
+//@   on call atomicfile.New(_) ret (f, e): open = (e == nil)
+//@   on call io.CopyN(_, _, _) ret (n, e): failed = failed || e != nil
+//@   on call io.Copy(_, _) ret (n, e): failed = failed || e != nil
+//@   on call (*os.File).Seek(_, _, _) ret (n, e): failed = failed || e != nil
+//@   on call invoke atomicfile.AtomicFile.Write(_, _) ret (n, e): failed = failed || e != nil
+//@   on call invoke atomicfile.AtomicFile.Commit(_) ret (e): committed = (e == nil); open = open && e != nil; \
+//@        assert @commit_only_after_complete_output !failed
+//@   on call invoke atomicfile.AtomicFile.Close(_) ret (e): open = false
+//@   loop 0 sig "for i, patch := range p.Patches" invariant !failed
+//@   ensures @no_temp_file_left !open
+//@   ensures @success_means_committed ret0 == nil ==> committed
